@@ -34,8 +34,10 @@ RULE = ('cases = amen_solve on the C12 system classes (certified cond_2<=1e3; SP
         'sanitizer report blocks with a frame in torchttcpp.so are violations. distinct = (routine, structure, configuration, eps decade, seed index); non-trivial = C++ path observed.')
 ASSUMPTIONS = ['built with -std=c++20 instead of setup.py\'s -std=c++17 (PyTorch 2.14 headers require it); otherwise the same sources and libraries',
                'sanitizers see only torchttcpp.so: libtorch, OpenBLAS and the BLAS integer-width convention in cpp/BLAS.h are outside their view',
-               'MSan/TSan not applicable (uninstrumented libtorch; no threads)']
-REQUIRED_COUNTS = {'cpp_calls:amen_solve': 20, 'cpp_calls:dmrg_mv': 20, 'executions': 60}
+               'MSan/TSan not applicable (uninstrumented libtorch; no threads)',
+               'explicit sweep budgets nswp=1,2 are outside the quantified input classes: only acceptance/shape/finiteness are judged there, plus a differential clause read off the wording '
+               '"the same contracts as with use_cpp=False": when the Python backend meets the C11 bound within that budget on the same input, options and seed, the C++ port must meet twice that bound']
+REQUIRED_COUNTS = {'cpp_calls:amen_solve': 20, 'cpp_calls:dmrg_mv': 20, 'executions': 60, 'exhausted_budget_executions[cpp]': 5}
 REQUIRED_REACH = ['solvers:amen_solve', '_dmrg:dmrg_matvec']
 CASE_TIMEOUT = {'quick': 300, 'thorough': 600}
 RUN_TIMEOUT = {'quick': 1500, 'thorough': 7200}
